@@ -3,6 +3,7 @@
 from __future__ import annotations
 
 import ast
+import re
 
 from ..core import AnalysisError, norm, calls_in, call_name, last_attr, walk_no_nested, parent
 from ..consteval import try_fold, module_env, fold_module_sequence, Unknown
@@ -334,3 +335,43 @@ def include_handling(ctx, repo):
 
 
 ALL = [f7_vocab, f8_escape, precision_pairs, include_handling]
+
+
+def ebdt_row_accessors(ctx, repo):
+    ctx.rule("EBDT-kw", "EBDT image dumps: for each text format the writer's getRow(...) and the reader's setRows(...) are called with the same bitDepth / reverseBytes / metrics arguments (defaults counted), so rows are cut and rebuilt with the same geometry", floor=2)
+    mod = repo.mod("ttLib/tables/E_B_D_T_.py")
+    DEF = {"bitDepth": "1", "metrics": "None", "reverseBytes": "False"}
+    pairs = []
+    for q in mod.funcs:
+        m = re.match(r"^_write(\w+)ImageData$", q)
+        if m and ("_read%sImageData" % m.group(1)) in mod.funcs:
+            pairs.append((q, "_read%sImageData" % m.group(1)))
+    n = 0
+    for wq, rq in sorted(pairs):
+        w, r = mod.func(wq), mod.func(rq)
+        g = [c for c in calls_in(w.node) if last_attr(c) == "getRow"]
+        s_ = [c for c in calls_in(r.node) if last_attr(c) == "setRows"]
+        if not g and not s_:
+            continue
+        n += 1
+
+        def kws(c):
+            d = dict(DEF)
+            for k in c.keywords:
+                if k.arg in d:
+                    d[k.arg] = norm(k.value)
+            return d
+
+        ok = len(g) == 1 and len(s_) == 1 and kws(g[0]) == kws(s_[0])
+        ctx.ob("EBDT-kw", w.where, f"{wq}: getRow{kws(g[0]) if g else None} / {rq}: setRows{kws(s_[0]) if s_ else None}", ok, "" if ok else "rows are written with a different bit depth / byte order than they are read back with")
+        if ok and kws(g[0])["bitDepth"] != "1":
+            # the printed width must cover width * bitDepth bits when the row is turned into text bits
+            d2b = [c for c in calls_in(w.node) if call_name(c) == "_data2binary"]
+            for c in d2b:
+                okw = "bitDepth" in norm(c.args[1]) if len(c.args) > 1 else False
+                ctx.ob("EBDT-kw", w.where, f"{norm(c)[:70]} prints width * bitDepth bits", okw, "" if okw else "only the first `width` bits of each row are printed")
+    if n < 2:
+        raise AnalysisError("EBDT-kw: row/bitwise writer-reader pairs not found")
+
+
+ALL.append(ebdt_row_accessors)
